@@ -36,9 +36,13 @@ def payload(i: int) -> np.ndarray:
     return r.uniform(-1e3, 1e3, size=(3,)).astype(np.float32)
 
 
-def example(i: int, kind: str = "good") -> dict:
+def example(i: int, kind: str = "good", fmt: str = "") -> dict:
     v = {"id": np.array([i], dtype=np.int64), "x": payload(i)}
-    if kind == "bad":  # shape violation: must be rejected by every format
+    if kind == "bad" and fmt == "fb" and i % 2 == 0:
+        # FlatBuffers enforces the dtype: a value that cannot be cast safely (float64 into float32) on the SECOND
+        # attribute is rejected inside the format writer, after the first attribute has already been serialised
+        v["x"] = payload(i).astype(np.float64) * 1.0000001
+    elif kind == "bad":  # shape violation: must be rejected by every format
         v["x"] = np.concatenate([payload(i), np.zeros(1, np.float32)])
     elif kind == "badlate":  # passes the shape check, rejected by the TFRecord encoder after the file was opened
         v["unexpected"] = np.zeros(1, np.float32)
@@ -369,10 +373,13 @@ def _feed_writer(dataset_filler, plan):
         mark({"ev": "wb", "dir": wdir, "ids": [x[0] for x in plan]})
     with dataset_filler as ctx:
         for (i, split, md, kind) in plan:
+            if kind == "raise":
+                continue
             if marking:
                 mark({"ev": "b", "name": "Write", "id": i, "w": wdir, "split": split, "md": md, "kind": kind})
             try:
-                ctx.write_example(values=example(i, kind), split=split, custom_metadata=MD[md])
+                ctx.write_example(values=example(i, kind, os.environ.get("VERIF_FMT", "")), split=split,
+                                  custom_metadata=MD[md])
                 out.append((i, True, ""))
             except Exception as exc:  # pylint: disable=broad-except
                 out.append((i, False, type(exc).__name__))
@@ -382,6 +389,8 @@ def _feed_writer(dataset_filler, plan):
             mark({"ev": "wx", "dir": wdir})
     if marking:
         mark({"ev": "we", "dir": wdir})
+    if any(item[3] == "raise" for item in plan):
+        raise RuntimeError("injected failure of the writer function")
     return out
 
 
@@ -474,7 +483,8 @@ class Replayer:
         eff = md if md != "REF" else self.caller_md["k"][0]
         if p == 0:
             try:
-                self.ctx.write_example(values=example(i, kind), split=split, custom_metadata=self._md_arg(md))
+                self.ctx.write_example(values=example(i, kind, self.fmt), split=split,
+                                       custom_metadata=self._md_arg(md))
                 acc, exc = True, ""
             except Exception as e:  # pylint: disable=broad-except
                 acc, exc = False, type(e).__name__
@@ -511,6 +521,7 @@ class Replayer:
 
     def multi_end(self):
         k = self.multi["k"]
+        os.environ["VERIF_FMT"] = self.fmt      # inherited by forked workers (feed_writer builds the values there)
         plans = [self.multi["plans"].get(p, []) for p in range(1, k + 1)]
         try:
             results = self.ds.write_multiprocessing(feed_writer=_feed_writer, custom_arguments=[(pl,) for pl in plans],
@@ -530,6 +541,28 @@ class Replayer:
             self.wlog.append(e)
             self._judge_write(e)
         self.done.append(self.nsess)
+        self.multi = None
+
+    def multi_abort(self, j):
+        """The multi-writer call fails: writer j's function raises after its filler was closed."""
+        k = self.multi["k"]
+        os.environ["VERIF_FMT"] = self.fmt
+        plans = [list(self.multi["plans"].get(p, [])) for p in range(1, k + 1)]
+        plans[j - 1].append((0, "train", "None", "raise"))
+        try:
+            self.ds.write_multiprocessing(feed_writer=_feed_writer, custom_arguments=[(pl,) for pl in plans],
+                                          single_process=self.single_process)
+            self.problems.append(("abort-did-not-raise", "write_multiprocessing returned although a writer function raised"))
+        except Exception:  # pylint: disable=broad-except
+            pass
+        for p, pl in enumerate(plans, start=1):
+            for (i, split, md, kind) in pl:
+                if kind == "raise" or p > j:
+                    continue
+                self.wlog.append({"id": i, "sess": self.nsess, "pid": p, "split": split, "md": md, "kind": kind,
+                                  "acc": kind == "good", "exc": ""})
+        self.wlog.sort(key=lambda e: e["id"])
+        self.aborted = getattr(self, "aborted", 0) + 1
         self.multi = None
 
     # -- dispatch on a TLC action label
@@ -566,6 +599,9 @@ class Replayer:
             return False
         if name == "MultiDone":
             return True
+        if name == "MultiAbort":
+            self.multi_abort(args[0])
+            return True
         raise ValueError(f"unknown label {name}")
 
     # -- observation
@@ -576,7 +612,7 @@ class Replayer:
         cfiles, (cmem,), _ = canonical(files, extra=(mem,))
         st = {"files": files_to_json(cfiles), "mem": cmem,
               "wlog": [{k: v for k, v in w.items() if k != "exc"} for w in self.wlog], "done": list(self.done),
-              "checks": list(checks)}
+              "checks": list(checks), "aborted": getattr(self, "aborted", 0)}
         if with_read:
             st["readback"] = self.readback()
         return st, cfiles, cmem
